@@ -39,8 +39,16 @@ def _d3():
     return m
 
 
+def _e2():
+    m = np.eye(16, dtype=complex)
+    m[2, 13] = W
+    m[8, 1] = 2j
+    return m
+
+
 GENM = {'A1': np.array([[1, 2], [1j, 0]], dtype=complex), 'A2': np.array([[0, W], [1, 0]], dtype=complex),
-        'B1': perm([1, 2, 4, 3]), 'B2': _b2(), 'D1': perm([1, 2, 3, 4, 5, 6, 8, 7]), 'D2': perm([1, 2, 3, 4, 5, 7, 6, 8]), 'D3': _d3()}
+        'B1': perm([1, 2, 4, 3]), 'B2': _b2(), 'D1': perm([1, 2, 3, 4, 5, 6, 8, 7]), 'D2': perm([1, 2, 3, 4, 5, 7, 6, 8]), 'D3': _d3(),
+        'E1': perm([1, 7, 3, 4, 5, 6, 12, 8, 9, 10, 11, 13, 2, 14, 15, 16]), 'E2': _e2()}
 
 
 def hf_ry_rx(alpha, beta):
@@ -132,6 +140,8 @@ def add_gate(circ, g, requires_grad=None, args_override=None):
         return circ.double_qubit_gate(GENM[g['mat']], tg[0], tg[1])
     if op == 'triple':
         return circ.triple_qubit_gate(GENM[g['mat']], tg[0], tg[1], tg[2])
+    if op == 'quadruple':
+        return circ.quadruple_qubit_gate(GENM[g['mat']], tg[0], tg[1], tg[2], tg[3])
     if op == 'csingle':
         return circ.controlled_single_qubit_gate(GENM[g['mat']], ctrl, tg[0])
     if op == 'cdouble':
